@@ -1,0 +1,21 @@
+//go:build verif
+
+package immutable
+
+import "github.com/openGemini/openGemini/lib/record"
+
+// Thin wrapper for the C20 verification harness (build tag verif). No behaviour.
+
+// VerifColumnStoreSortRecord runs ColumnStoreTSSPWriter.sortRecord (the attached flush: rows grouped by primary key, groups
+// sorted, rows of a group sorted by the sort key, groups cut into segments) and returns the primary-key record, the
+// __fragment__ values and, per segment in file order, the row offsets of rec that the segment holds.
+func VerifColumnStoreSortRecord(rec *record.Record, pk, sk record.Schemas) (*record.Record, []int64, [][]int64) {
+	w := &ColumnStoreTSSPWriter{}
+	pkRec, fragments, oks := w.sortRecord(rec, pk, sk)
+	var segs [][]int64
+	oks.IteratorSegment(func(_ []int64, offsets []int64) bool {
+		segs = append(segs, append([]int64(nil), offsets...))
+		return true
+	})
+	return pkRec, fragments, segs
+}
